@@ -3132,6 +3132,7 @@ Grammar* IGXMLScanner::loadDTDGrammar(const InputSource& src,
         , fMemoryManager
     );
     dtdScanner.setScannerInfo(this, &fReaderMgr, &fBufMgr);
+    dtdScanner.setScanningStandaloneDTD();
 
     // Tell it its not in an include section
     dtdScanner.scanExtSubsetDecl(false, true);
